@@ -239,6 +239,12 @@ func majOracle(c *Case, req M, resp *Response) []Violation {
 			vs = append(vs, viol(c, "C11/opponent-unknown", "entry %s names opponent %s which is not in the result", id, with))
 			continue
 		}
+		if _, has := e.Evaluation["comparedAlternativeValue"].(float64); !has {
+			vs = append(vs, viol(c, "C11/score-not-reported", "entry %s names opponent %s but carries no comparedAlternativeValue (keys %v)", id, with, mapKeys(e.Evaluation)))
+		}
+		if _, has := e.Evaluation["value"].(float64); !has {
+			vs = append(vs, viol(c, "C11/score-not-reported", "entry %s names opponent %s but carries no value (keys %v)", id, with, mapKeys(e.Evaluation)))
+		}
 		v, ov := asF(e.Evaluation["value"]), asF(e.Evaluation["comparedAlternativeValue"])
 		if v != d.score(id, with) || ov != d.score(with, id) {
 			vs = append(vs, viol(c, "C11/scores", "entry %s vs %s reports scores (%v,%v), recomputed (%v,%v)", id, with, v, ov, d.score(id, with), d.score(with, id)))
